@@ -12,7 +12,7 @@ THRESHOLDS = {
     "extrapolated_over_plain_error_l2": 0.75,   # observed <= 0.13
     "extrapolated_over_plain_error_inf": 0.75,  # observed <= 0.31
 }
-MIN_NONTRIVIAL = {"quick": 20, "thorough": 300}
+MIN_NONTRIVIAL = {"quick": 20, "thorough": 200}   # at most 3*3*7*2*2 = 252 signatures exist
 
 
 def post_stage(stage, res, verdict):
